@@ -517,7 +517,7 @@ def long_tapes(ctx: Ctx):
         lengths = lengths * 3 + [rng.randint(63, 300) for _ in range(30)]
     for L in lengths:
         big = L >= 200
-        names, isy, tsy, blank = TL.rand_parts(rng, 16)
+        names, isy, tsy, blank = TL.rand_parts(rng, 24)
         prog = TL.rand_program(rng, tsy, blank, max_sweeps=2 if big and not thorough else 4)
         table, final, used = TL.compile_program(prog, names, tsy, blank)
         kw = TL.kw_of(used, isy, tsy, blank, final, used[0])
